@@ -175,6 +175,7 @@ func c15RoundTrip(rec *kit.Rec, origin, desc string, m *Message) (ok bool) {
 		rec.Distinct("reject_reasons", err.Error())
 		return false
 	}
+	wireSnap := append([]byte(nil), wire...)
 	var back Message
 	var derr error
 	if pk, v, st := c15Try(func() { back, derr = MessageFromWireFormat(wire) }); pk {
@@ -194,6 +195,15 @@ func c15RoundTrip(rec *kit.Rec, origin, desc string, m *Message) (ok bool) {
 		rec.Violation(sig, msg, map[string]interface{}{"case": desc, "decode_error": derr.Error(), "max_labels_in_a_name": c15MaxLabels(m),
 			"wire_len": len(wire), "wire": kit.HexN(wire, 96), "message": c15DescribeMsg(m)})
 		return false
+	}
+	if !bytes.Equal(wire, wireSnap) {
+		rec.Violation("dns:message:decoder-modifies-its-input", "MessageFromWireFormat changed the caller's buffer", map[string]interface{}{"case": desc, "first_wire_bytes": kit.HexN(wireSnap, 48)})
+		copy(wire, wireSnap)
+	}
+	if back2, derr2 := MessageFromWireFormat(wire); derr2 != nil {
+		rec.Violation("dns:message:second-decode-differs", "decoding the same bytes a second time fails", map[string]interface{}{"case": desc, "error": derr2.Error()})
+	} else if cls, d := c15MsgDiff(&back, &back2); cls != "" {
+		rec.Violation("dns:message:second-decode-differs", "decoding the same bytes twice gives two different messages", map[string]interface{}{"case": desc, "diff": d})
 	}
 	if cls, d := c15MsgDiff(m, &back); cls != "" {
 		rec.Violation("dns:message:"+origin+":roundtrip-mismatch:"+cls, "MessageFromWireFormat(WireFormat(m)) != m",
@@ -429,9 +439,17 @@ func TestVerifC15TXT(t *testing.T) {
 			rec.Violation("dns:txt:encoder-panic", "EncodeRDataTXT panicked", map[string]interface{}{"case": desc, "panic": fmt.Sprint(v), "stack": st})
 			continue
 		}
+		encSnap := append([]byte(nil), enc...)
 		if pk, v, st := c15Try(func() { dec, derr = DecodeRDataTXT(enc) }); pk {
 			rec.Violation("dns:txt:decoder-panic-on-own-encoding", "DecodeRDataTXT panicked on EncodeRDataTXT's output", map[string]interface{}{"case": desc, "panic": fmt.Sprint(v), "stack": st})
 			continue
+		}
+		if !bytes.Equal(enc, encSnap) {
+			rec.Violation("dns:txt:decoder-modifies-its-input", "DecodeRDataTXT changed the caller's buffer", map[string]interface{}{"case": desc})
+			copy(enc, encSnap)
+		}
+		if dec2, derr2 := DecodeRDataTXT(enc); (derr2 == nil) != (derr == nil) || !bytes.Equal(dec2, dec) {
+			rec.Violation("dns:txt:second-decode-differs", "decoding the same TXT-DATA twice gives two different results", map[string]interface{}{"case": desc})
 		}
 		if derr != nil || !bytes.Equal(dec, p) {
 			d := map[string]interface{}{"case": desc, "encoded_len": len(enc), "encoded_head": kit.HexN(enc, 8)}
